@@ -723,6 +723,8 @@ class ObjCell(Cell):
       if m is not None:
         if isinstance(m, PropertyV):
           return ctx.engine.call_value(ctx, m.func, [ref], {})
+        if isinstance(m, StaticMethodV):
+          return m.func
         return BoundMethod(ref, m)
     ctx.oblige(f'attr.{name}', False, kind='definedness',
                detail=f'AttributeError: {self.label or "object"}.{name}')
@@ -751,6 +753,15 @@ class PropertyV(Val):
 
   def __init__(self, func):
     self.func = func
+
+
+class StaticMethodV(Val):
+
+  def __init__(self, func):
+    self.func = func
+
+  def call(self, ctx, args, kwargs):
+    return ctx.engine.call_value(ctx, self.func, args, kwargs)
 
 
 class ClassModel(Val):
@@ -1116,3 +1127,22 @@ class SeqV(Val):
 
   def make_iter(self, ctx):
     return ctx.alloc(IterCell(self.seq, self.codec, 0))
+
+  def truth(self, ctx):
+    return z3.Length(self.seq) != 0
+
+  def binop(self, ctx, op, other, reflected):
+    if op != 'Add':
+      raise Unsupported(f'sequence {op}')
+    if isinstance(other, tuple):
+      o = z3.Empty(self.seq.sort())
+      for x in other:
+        o = z3.Concat(o, z3.Unit(self.codec.enc(x)))
+    elif isinstance(other, SeqV):
+      o = other.seq
+    else:
+      raise Unsupported('sequence + non-sequence')
+    return SeqV(z3.Concat(o, self.seq) if reflected else z3.Concat(self.seq, o), self.codec)
+
+  def fresh_like(self, ctx, base):
+    return SeqV(ctx.fresh(base, self.seq.sort()), self.codec)
